@@ -15,7 +15,7 @@ func init() {
 	register(&CheckDef{ID: "C02", Level: "exploration", Engine: "A", Draw: drawC02,
 		Rule: "as C01, plus twin clients whose hello differs from their sibling only by a permutation of cipher suites / extensions and by inserted or altered GREASE values (ciphers, extensions, groups, signature algorithms, versions): twins must receive equal X-JA4-Fingerprint values, and every value must match the independent reference (refhello.JA4) and have the form a_b_c." + ruleFront})
 	register(&CheckDef{ID: "C05", Level: "exploration", Engine: "A", Draw: drawC05,
-		Rule: "1-4 clients on both protocols; every request carries 0-3 client-chosen values (unique tokens) under each configured fingerprint header name, in random letter case on HTTP/1.1, repeated or not; injector set = default three plus 0-2 custom injectors whose outcome is value / empty / error." + ruleFront})
+		Rule: "1-4 clients on both protocols; every request carries 0-3 client-chosen values (unique tokens) under each configured fingerprint header name, in random letter case on HTTP/1.1, repeated or not; 12%: an injector ahead of the default ones panics at its k-th call (a request that is forwarded all the same carries nothing the client sent); injector set = default three plus 0-2 custom injectors whose outcome is value / empty / error." + ruleFront})
 	register(&CheckDef{ID: "C15", Level: "exploration", Engine: "A", Draw: drawC15,
 		Rule: "1-3 clients, both protocols, -enable-kubernetes-probe true/false through the real flag wiring; User-Agent absent / empty / exact prefix / infix / suffix / case variants / two lines / the text in another header; methods GET/HEAD/POST, several paths; 15%: the proxy is shut down at a drawn step while the connections exist (a probe is still answered 200 OK, any other request is forwarded or fails with a gateway error, never answered locally)." + ruleFront})
 }
